@@ -6,7 +6,7 @@ from . import gridgen
 
 def check():
     return solvercheck.run(
-        "C09", None,
+        "C09", "C09.v",
         [dict(profile=PROFILES["events"], n_quick=300, n_thorough=5000),
          dict(builder=gridgen.event_builder, n_quick=240, n_thorough=4000)],
         [oracles.oracle_C09, oracles.oracle_C08, oracles.oracle_shapes], TB,
